@@ -1,0 +1,34 @@
+//go:build verif
+
+package ethereum
+
+// ---------------------------------------------------------------------------
+// C40 (static part): the assembled tECDSA DKG result satisfies the wallet
+// registry's static checks.
+
+//@ func convertSignaturesToChainFormat
+//@   property C40
+//@   deterministic
+//@   opt noframe 1
+//@   ensures [signing-members-are-sorted-strictly-ascending-and-are-the-signers] err == nil ==> (forall a, b int :: 0 <= a && a < b && b < len(result0) ==> result0[a] <= result0[b]) && (forall t int :: 0 <= t && t < len(result0) ==> result0[t] in signatures)
+//@   ensures [sixty-five-bytes-per-signing-member] err == nil ==> len(result1) == 65 * len(result0)
+//@   loop 1 invariant forall t int :: 0 <= t && t < len(membersIndexes) ==> membersIndexes[t] in signatures
+//@   loop 2 invariant len(signaturesSlice) == 65 * rangeidx2
+
+//@ spec func idsHash(ids []chain.OperatorID) [32]byte
+//@ assume func computeOperatorsIDsHash
+//@   ensures err == nil ==> result0 == @idsHash(arg0)
+//@ assume func convertPubKeyToChainFormat
+//@   ensures true
+
+//@ func TbtcChain.AssembleDKGResult
+//@   property C40
+//@   opt noframe 1
+//@   requires groupSelectionResult != nil
+//@   requires [operating-indexes-are-seats] forall k int :: 0 <= k && k < len(operatingMembersIndexes) ==> 1 <= operatingMembersIndexes[k] && int(operatingMembersIndexes[k]) <= len(groupSelectionResult.OperatorsIDs)
+//@   ensures [key-is-64-bytes] err == nil ==> result0 != nil && len(result0.GroupPublicKey) == 64
+//@   ensures [misbehaved-indexes-are-sorted] err == nil ==> (forall a, b int :: 0 <= a && a < b && b < len(result0.MisbehavedMembersIndexes) ==> result0.MisbehavedMembersIndexes[a] <= result0.MisbehavedMembersIndexes[b])
+//@   ensures [signing-members-sorted-with-65-bytes-each] err == nil ==> (forall a, b int :: 0 <= a && a < b && b < len(result0.SigningMembersIndexes) ==> result0.SigningMembersIndexes[a] <= result0.SigningMembersIndexes[b]) && len(result0.Signatures) == 65 * len(result0.SigningMembersIndexes)
+//@   ensures [members-are-the-selected-operators-and-submitter-is-passed-through] err == nil ==> result0.Members == groupSelectionResult.OperatorsIDs && result0.SubmitterMemberIndex == submitterMemberIndex
+//@   assert call:computeOperatorsIDsHash : [members-hash-is-over-the-operators-of-the-sorted-operating-members] len(arg0) == len(operatingMembersIndexes) && (forall k int :: 0 <= k && k < len(arg0) ==> arg0[k] == groupSelectionResult.OperatorsIDs[int(operatingMembersIndexes[k]) - 1]) && (forall a, b int :: 0 <= a && a < b && b < len(operatingMembersIndexes) ==> operatingMembersIndexes[a] <= operatingMembersIndexes[b])
+//@   loop 1 invariant len(operatingOperatorsIDs) == len(operatingMembersIndexes) && (forall k int :: 0 <= k && k < rangeidx1 ==> operatingOperatorsIDs[k] == groupSelectionResult.OperatorsIDs[int(operatingMembersIndexes[k]) - 1])
